@@ -137,6 +137,42 @@ def _edep_case(wl_kind, real=None):
     return h
 
 
+def _real_materials_case(case, tier, seed):
+    """ground (concrete; not a solver claim): every energy-dependent nuclide of the public table in a two-material
+    composite, calculator vs direct calculation at a vector of wavelengths"""
+    import periodictable as pt
+    from periodictable import nsf, formulas, nsf_tables
+    res = dict(paths=1, claims=0, discharged=0, queries=0, distinct=0, violations=[], inconclusive=[], samples=[], solver_s=0.0, complete=True)
+    pt.H.neutron
+    lams = [0.31, 1.0, 1.798, 4.75, 12.0]
+    water = formulas.formula('D2O@1.1n')
+    atoms = [getattr(pt, el) if iso is None else getattr(pt, el)[iso] for (el, iso) in nsf_tables.ENERGY_DEPENDENT_TABLES]
+    atoms += [pt.Fe, pt.H[1], pt.Ni[58], pt.B[10]]
+    for atom in atoms:
+        m1 = formulas.formula([(1.5, atom), (3, pt.O)])
+        ws, rho = [0.3, 2.25], 4.2
+        total = ws[0] * m1 + ws[1] * water
+        try:
+            out = nsf.neutron_composite_sld([m1, water], wavelength=np.array(lams))(np.array(ws), density=rho)
+            for i, l in enumerate(lams):
+                d = nsf.neutron_sld(total, density=rho, wavelength=l)
+                for nme, o, dv in zip(('sld_re', 'sld_im', 'sld_inc'), out, d):
+                    res['claims'] += 1
+                    if abs(o[i] - dv) <= 1e-9 * max(1.0, abs(dv)):
+                        res['discharged'] += 1
+                    elif len(res['violations']) < 5:
+                        res['violations'].append(dict(case=case.name, claim='composite_vs_direct[%s].%s' % (atom, nme), values={'wavelength': l},
+                                                      observed=[repr(o[i]), repr(dv)], how='concrete real-table material'))
+        except Exception as e:   # noqa: BLE001
+            res['claims'] += 1
+            if len(res['violations']) < 5:
+                res['violations'].append(dict(case=case.name, claim='composite_vs_direct[%s].no_exception' % atom, values={},
+                                              observed=['%s: %s' % (type(e).__name__, e), None], how='concrete real-table material'))
+    res['queries'] = res['distinct'] = res['claims']
+    res['samples'] = [dict(materials=len(atoms), wavelengths=lams)]
+    return res
+
+
 def cases(tier):
     th = tier == 'thorough'
     mp = 128 if not th else 1024
@@ -154,6 +190,7 @@ def cases(tier):
     out.append(Case('zero_density[X+Y|D|scalar]', _case([['X', 'Y'], ['D']], 'scalar', zero='density'), max_paths=mp, timeout_ms=to))
     out.append(Case('zero_weights[X+Y|D|2]', _case([['X', 'Y'], ['D']], '2', zero='weights'), max_paths=mp, timeout_ms=to))
     out.append(Case('zero_density[X+Y|D|2]', _case([['X', 'Y'], ['D']], '2', zero='density'), max_paths=mp, timeout_ms=to))
+    out.append(Case('real_table_materials_ground', None, custom=_real_materials_case))
     out.append(Case('edep[synthetic-3-node|wl=scalar]', _edep_case('scalar'), max_paths=mp * 4, timeout_ms=to, nsamples=3))
     if th:
         # (a 2-vector of wavelengths over the interpolating branch multiplies the fork tree beyond a 25-minute budget;
